@@ -142,6 +142,11 @@ pub const NOISE: &[&str] = &[
     "100% <= 200%",
     "</ blocks >",
     "<blockquote cite='x'>",
+    // half-written look-alikes whose quote is closed (if at all) by a quote of a LATER tag in the same comment:
+    // never a tag themselves (a quote character can never start or be part of an attribute name), and the
+    // tags after them are still found
+    "<block note=\"half written",
+    "see <block x='unfinished",
 ];
 
 /// Look-alikes that are only safe as the last thing of their own comment (an unclosed quote followed by a
@@ -660,6 +665,24 @@ pub fn build_raw(lang: &Lang, events: &[Ev], crlf: bool) -> Built {
                         out.push(' ');
                     }
                     out.push_str(&close);
+                }
+                // A half-written look-alike whose quote is closed by a later quote of the same kind at a token
+                // boundary (followed by white space, `>` or the comment's end) could legitimately be read as a
+                // tag: defuse it by construction (same length, so no offset moves).
+                for half in ["<block note=\"half written", "<block x='unfinished"] {
+                    let mut from = cstart;
+                    while let Some(p) = out[from..].find(half).map(|i| i + from) {
+                        let qpos = p + half.find(['"', '\'']).unwrap();
+                        let q = out.as_bytes()[qpos] as char;
+                        let ambiguous = match out[qpos + 1..].find(q).map(|i| i + qpos + 1) {
+                            None => false,
+                            Some(r) => out[r + 1..].chars().next().is_none_or(|c| c.is_whitespace() || c == '>'),
+                        };
+                        if ambiguous {
+                            out.replace_range(qpos..qpos + 1, "~");
+                        }
+                        from = p + half.len();
+                    }
                 }
                 let cend = out.len();
                 if had_nl {
